@@ -136,7 +136,21 @@ Definition agree (c : case) : bool :=
    [resolve] is the documented precedence.  A document without meaning must be refused; a
    document with a meaning must be accepted, every validator must get exactly the settings the
    precedence gives, nothing may panic, what --proposer-config-check prints must be those
-   settings, and after marshal -> unmarshal every validator must get the same settings again. *)
+   settings, after marshal -> unmarshal every validator must get the same settings again, and
+   the marshalled document must mean the configuration the input document means. *)
+(* the marshalled document, read as a document, is the configuration the input document is: every
+   entry, value and presence the same, account patterns the same on every probe name (patterns are
+   numbered by what they match), relay maps up to order.  By C10_roundtrip_meaning-style reasoning
+   this gives the same settings to EVERY validator, not only to those of the case. *)
+Definition same_meaning (cfg : config) (m : option json) : bool :=
+  match m with
+  | None => false
+  | Some j => match unmarshal j with
+              | None => false
+              | Some cfg' => config_eqb cfg cfg'
+              end
+  end.
+
 Definition P_with (spec : config -> validator -> N -> N -> outcome) (c : case) : bool :=
   match unmarshal (c_doc c) with
   | None => negb (c_ok1 c)
@@ -146,6 +160,7 @@ Definition P_with (spec : config -> validator -> N -> N -> outcome) (c : case) :
       && list_eqb outcome_eqb (c_out1 c) (c_shown c)
       && c_ok2 c
       && list_eqb outcome_eqb (c_out1 c) (c_out2 c)
+      && same_meaning cfg (c_marshalled c)
   end.
 
 (* The legacy format has two documented readings.  The property's own wording ("legacy lookup
